@@ -416,8 +416,11 @@ PROPS = {
     "C10": app(
         "C10",
         ["C10_refused_untouched", "C10_checktx_outsider", "C10_members_invariant", "C10_outsider_no_effect",
-         "C10_noninterference", "C10_total_lastConfig", "C10_total_outcome"],
-        "Theorems (Lean): malformed / foreign-chain / replayed transactions return code 1 and leave the state identical; the "
+         "C10_noninterference", "C10_total_lastConfig", "C10_total_outcome", "C10_malformed_config_refused",
+         "C10_malformed_checkin_refused"],
+        "Theorems (Lean): malformed / foreign-chain / replayed transactions return code 1 and leave the state identical; a "
+        "structurally invalid configuration (threshold 0 or above the number of keypers up to any size, no keypers, bad or "
+        "repeated address) and a check-in with a bad key are refused without a trace whoever sends them; the "
         "mempool refuses non-members; on every reachable state a transaction of an address in no accepted keyper set gets a "
         "non-zero code, no events, and changes only its own (signer, nonce) record; states differing only in one sender's "
         "nonce records answer every later call of other senders identically (simulation over whole histories); the two "
